@@ -234,6 +234,8 @@ func c02WorkerMain(script string) {
 	var dir string
 	var spec c02Chron
 	var ch chronicler.Chronicler
+	swampRig := &c25Swamp{}
+	var fsizeLimit uint64
 	live := 0
 	n := 0
 	for sc.Scan() {
@@ -327,10 +329,64 @@ func c02WorkerMain(script string) {
 						res = "ok size=" + strconv.FormatInt(sz, 10)
 					}
 				}
+			case "probe":
+				// what a reader sees right now (the writer stays open): the file is copied aside —
+				// with pwrite, so that no write(2) is added to the run — and loaded there
+				if fsizeLimit != 0 { // the copy must not be cut by the fault that is being emulated
+					c02SetFsize(0)
+					defer c02SetFsize(fsizeLimit)
+				}
+				src, err := os.ReadFile(filepath.Join(dir, "sw.hyd"))
+				if err != nil {
+					res = "ok -"
+					break
+				}
+				pd := filepath.Join(dir, "probe")
+				_ = os.MkdirAll(pd, 0o755)
+				if pf, err := os.OpenFile(filepath.Join(pd, "sw.hyd"), os.O_CREATE|os.O_TRUNC|os.O_WRONLY, 0o644); err == nil {
+					_, _ = pf.WriteAt(src, 0)
+					_ = pf.Close()
+				}
+				pl := live
+				pc := spec
+				pc.live = &pl
+				b := beacon.New()
+				pc.make(pd).Load(b)
+				res = "ok " + c02BeaconState(b)
+			case "zap":
+				// damage in the middle of the file: zero the size field of the N-th block
+				nth, _ := strconv.Atoi(f[1])
+				p := filepath.Join(dir, "sw.hyd")
+				b, err := os.ReadFile(p)
+				if err != nil || len(b) < 64 {
+					res = "err nofile"
+					break
+				}
+				off := 64 + int(binary.LittleEndian.Uint16(b[44:46]))
+				for ; nth > 0 && off+16 <= len(b); nth-- {
+					off += 16 + int(binary.LittleEndian.Uint32(b[off:off+4]))
+				}
+				if off+16 > len(b) {
+					res = "err noblock"
+					break
+				}
+				copy(b[off:off+4], []byte{0, 0, 0, 0})
+				if err := os.WriteFile(p, b, 0o644); err != nil {
+					res = "err " + err.Error()
+				} else {
+					res = "ok off=" + strconv.Itoa(off)
+				}
+			case "size":
+				if st, err := os.Stat(filepath.Join(dir, "sw.hyd")); err == nil {
+					res = "ok " + strconv.FormatInt(st.Size(), 10)
+				} else {
+					res = "ok -"
+				}
 			case "fsize":
 				// RLIMIT_FSIZE soft limit (0 = unlimited again)
 				lim, _ := strconv.ParseUint(f[1], 10, 64)
 				c02SetFsize(lim)
+				fsizeLimit = lim
 			case "fsizeplus":
 				// the main file may grow by K more bytes (0: the next append fails outright)
 				k, _ := strconv.ParseUint(f[1], 10, 64)
@@ -342,6 +398,9 @@ func c02WorkerMain(script string) {
 					k = 1
 				}
 				c02SetFsize(cur + k)
+				fsizeLimit = cur + k
+			case "swamp", "ssave", "sdel", "stick", "sclose", "sload":
+				res = swampRig.cmd(dir, f)
 			default:
 				res = "bad-cmd"
 			}
@@ -1191,6 +1250,12 @@ func c02TraceCases(cases []c02CaseIn, extraStrace []string) ([]c02CaseOut, error
 					co.Plant = []c02Sys{{Cmd: -1, Op: "trunc", Path: "main", Off: n, Res: "ok", Kind: "plant"}}
 				}
 			}
+			if strings.HasPrefix(co.Text, "zap ") {
+				if k := strings.Index(co.Res, "off="); k >= 0 {
+					n, _ := strconv.ParseInt(co.Res[k+4:], 10, 64)
+					co.Plant = []c02Sys{{Cmd: -1, Op: "write", Path: "main", Off: n, Data: []byte{0, 0, 0, 0}, Want: 4, Res: "ok", Kind: "zero"}}
+				}
+			}
 		}
 	}
 	for _, s := range sys {
@@ -1198,7 +1263,7 @@ func c02TraceCases(cases []c02CaseIn, extraStrace []string) ([]c02CaseOut, error
 			continue
 		}
 		co := &outs[refs[s.Cmd].ci].Cmds[refs[s.Cmd].ki]
-		if strings.HasPrefix(co.Text, "plant ") || strings.HasPrefix(co.Text, "cut ") {
+		if strings.HasPrefix(co.Text, "plant ") || strings.HasPrefix(co.Text, "cut ") || strings.HasPrefix(co.Text, "zap ") {
 			continue // the worker's own WriteFile; represented by the pseudo-operations
 		}
 		co.Sys = append(co.Sys, s)
@@ -1228,7 +1293,53 @@ func c02TraceCases(cases []c02CaseIn, extraStrace []string) ([]c02CaseOut, error
 
 // Go's File.Write retries a short write; the retry fails (EFBIG/ENOSPC).  The pair is one logical
 // write with result `short n`.
+// c02SplitHeaderName: what matters is the effect on the file, not the syscall boundaries — a new
+// file's header and swamp name written by ONE write(2) are the same two operations as far as the
+// model is concerned (header at 0, name at 64).
+func c02SplitHeaderName(s c02Sys) []c02Sys {
+	full := s.Data
+	if len(s.Req) == s.Want && s.Want > 0 {
+		full = s.Req
+	}
+	if s.Op != "write" || s.Off != 0 || s.Want <= 64 || len(full) < 64 || string(full[:4]) != "HYDR" ||
+		int(binary.LittleEndian.Uint16(full[44:46])) != s.Want-64 {
+		return []c02Sys{s}
+	}
+	h, n := s, s
+	h.Want, n.Want, n.Off = 64, s.Want-64, 64
+	cut := func(b []byte, from, to int) []byte {
+		if from > len(b) {
+			from = len(b)
+		}
+		if to > len(b) {
+			to = len(b)
+		}
+		return b[from:to]
+	}
+	h.Data, n.Data = cut(s.Data, 0, 64), cut(s.Data, 64, s.Want)
+	if len(s.Req) > 0 {
+		h.Req, n.Req = cut(s.Req, 0, 64), cut(s.Req, 64, s.Want)
+	}
+	switch {
+	case s.Res == "ok":
+		return []c02Sys{h, n}
+	case len(s.Data) < 64: // failed inside the header: the name was never attempted
+		return []c02Sys{h}
+	case len(s.Data) == 64:
+		h.Res, n.Res = "ok", "err"
+		return []c02Sys{h, n}
+	default:
+		h.Res = "ok"
+		return []c02Sys{h, n}
+	}
+}
+
 func c02MergeShort(sys []c02Sys) []c02Sys {
+	var split []c02Sys
+	for _, s := range sys {
+		split = append(split, c02SplitHeaderName(s)...)
+	}
+	sys = split
 	var out []c02Sys
 	for i := 0; i < len(sys); i++ {
 		s := sys[i]
@@ -1337,10 +1448,15 @@ func c02TornOffsets(n int, thorough bool) []int {
 
 // crash points for operations [from, to] of a log: every boundary, torn writes, and lossy
 // variants (data of the writes since j lost, metadata kept)
-func c02ImagePoints(ops []c02Sys, from, to int, thorough bool, maxTorn int) [][3]int {
-	var out [][3]int
+// A fourth component z > 0 is a zero extension: the size of the in-flight write reached the disk,
+// the bytes behind its first k did not (they read as zeros) — what a power loss can leave.
+func c02ImagePoints(ops []c02Sys, from, to int, thorough bool, maxTorn int) [][4]int {
+	var out [][4]int
 	for i := from; i <= to && i <= len(ops); i++ {
-		out = append(out, [3]int{i, i, 0})
+		out = append(out, [4]int{i, i, 0, 0})
+		if i < len(ops) && ops[i].Op == "write" && ops[i].Path == "main" && ops[i].Off > 0 && len(ops[i].Data) <= maxTorn {
+			out = append(out, [4]int{i, i, 0, len(ops[i].Data)})
+		}
 		if i < len(ops) && ops[i].Op == "write" && len(ops[i].Data) <= maxTorn {
 			ks := c02TornOffsets(len(ops[i].Data), thorough)
 			if ops[i].Kind == "nm" {
@@ -1358,7 +1474,12 @@ func c02ImagePoints(ops []c02Sys, from, to int, thorough bool, maxTorn int) [][3
 				sort.Ints(ks)
 			}
 			for _, k := range ks {
-				out = append(out, [3]int{i, i, k})
+				out = append(out, [4]int{i, i, k, 0})
+				// (bytes that are zero anyway would make the extension the finished write: nothing new)
+				if ops[i].Path == "main" && ops[i].Off > 0 && ops[i].Kind != "nm" && k < len(ops[i].Data) &&
+					bytes.Count(ops[i].Data[k:], []byte{0}) != len(ops[i].Data)-k {
+					out = append(out, [4]int{i, i, k, len(ops[i].Data) - k})
+				}
 			}
 		}
 		ls := c02LastSync(ops, i)
@@ -1373,9 +1494,9 @@ func c02ImagePoints(ops []c02Sys, from, to int, thorough bool, maxTorn int) [][3
 			if !meta {
 				continue
 			}
-			out = append(out, [3]int{i, j, 0})
+			out = append(out, [4]int{i, j, 0, 0})
 			if ops[j].Op == "write" && len(ops[j].Data) > 1 {
-				out = append(out, [3]int{i, j, len(ops[j].Data) / 2})
+				out = append(out, [4]int{i, j, len(ops[j].Data) / 2, 0})
 			}
 		}
 	}
@@ -1514,7 +1635,11 @@ func c02EmitCase(w *bufio.Writer, co c02CaseOut, imgFor func(ki int, c c02CmdOut
 			} else {
 				fmt.Fprintln(w, "act load - "+st)
 			}
-		case "plant", "live", "fsize", "fsizeplus", "cut":
+		case "size":
+			fmt.Fprintln(w, "act size "+strings.TrimPrefix(c.Res, "ok "))
+		case "probe":
+			fmt.Fprintln(w, "act probe "+strings.TrimPrefix(c.Res, "ok "))
+		case "plant", "live", "fsize", "fsizeplus", "cut", "zap":
 		default:
 			fmt.Fprintln(w, "act "+c.Text)
 		}
@@ -1541,7 +1666,11 @@ func c02EmitCase(w *bufio.Writer, co c02CaseOut, imgFor func(ki int, c c02CmdOut
 		}
 		if want && len(ops) > start {
 			for _, p := range c02ImagePoints(ops, start, len(ops), thorough, 1<<20) {
-				fmt.Fprintf(w, "img %d %d %d\n", p[0], p[1], p[2])
+				if p[3] > 0 {
+					fmt.Fprintf(w, "img %d %d %d %d\n", p[0], p[1], p[2], p[3])
+				} else {
+					fmt.Fprintf(w, "img %d %d %d\n", p[0], p[1], p[2])
+				}
 			}
 		}
 		// power loss right after an acknowledged Sync/Close: everything not fsynced is gone.  With the
@@ -1687,11 +1816,18 @@ func c02RunOps(in *bufio.Scanner, w *bufio.Writer, probe bool) {
 			fmt.Fprintln(w, "ok")
 		case "res", "phantom":
 			fmt.Fprintln(w, "ok")
+		case "sw":
+			// a command on a real swamp (C25): its result was recorded by the run itself
+			if len(f) > 2 && f[1] == "load" {
+				fmt.Fprintln(w, "ok "+f[len(f)-1])
+			} else {
+				fmt.Fprintln(w, "ok")
+			}
 		case "act":
 			switch f[1] {
 			case "load":
 				fmt.Fprintln(w, "ok "+f[len(f)-1])
-			case "sync", "close":
+			case "sync", "close", "size", "probe":
 				fmt.Fprintln(w, "ok "+f[len(f)-1])
 			default:
 				fmt.Fprintln(w, "ok")
@@ -1717,12 +1853,19 @@ func c02RunOps(in *bufio.Scanner, w *bufio.Writer, probe bool) {
 			i, _ := strconv.Atoi(f[1])
 			j, _ := strconv.Atoi(f[2])
 			k, _ := strconv.Atoi(f[3])
-			fmt.Fprintln(w, r.evalImage(c02Image(r.ops, i, j, k)))
+			img := c02Image(r.ops, i, j, k)
+			if len(f) > 4 { // zero extension of the main file
+				z, _ := strconv.Atoi(f[4])
+				if m, ok := img["main"]; ok {
+					img["main"] = append(append([]byte(nil), m...), make([]byte, z)...)
+				}
+			}
+			fmt.Fprintln(w, r.evalImage(img))
 		case "end":
 			fmt.Fprintln(w, "end")
-		case "tick":
+		case "tick", "tick0", "tickdel":
 			n, _ := strconv.Atoi(f[1])
-			fmt.Fprintln(w, "tick "+c02Tick(n))
+			fmt.Fprintln(w, "tick "+c02TickMode(n, f[0]))
 		default:
 			fmt.Fprintln(w, "bad-op")
 		}
